@@ -325,6 +325,8 @@ def class_members(hsrc, cls, where):
 def parse_vopts(src, cls, where):
     m = re.search(r"temp_vopts\s*\[\s*\]\s*=\s*\{", src)
     if not m:
+        if re.search(r"const\s+std\s*::\s*vector\s*<\s*std\s*::\s*string\s*>\s*%s\s*::\s*vopts\s*;" % re.escape(cls), src):
+            return []           # default-constructed: no options at all
         fail(where, "temp_vopts initializer not found")
     e = match_brace(src, m.end() - 1)
     body = src[m.end():e - 1]
@@ -362,6 +364,7 @@ class Writer:
         self.header = None         # RAW keyword
         self.section = "state"
         self.items = []            # pending << items of the current output line
+        self.resolved = {}         # index in items -> (member, is_header_token) resolved where the expression stands
         self.item_ctx = None
         self.cur = None            # entry that subsequent data lines / sub-dumps belong to
         self.locals = {}           # local pointer / iterator -> (member, type)
@@ -398,6 +401,8 @@ class Writer:
 
     def flush_line(self, guards, loops):
         items, self.items = self.items, []
+        resolved, self.resolved = self.resolved, {}
+        rexprs = [resolved[k] for k, x in enumerate(items) if k in resolved]
         lits = [unquote(x) for x in items if x.startswith('"')]
         exprs = [x for x in items if not x.startswith('"') and not re.match(r"^indent\d$", x)]
         first = next((x for x in items if not re.match(r"^indent\d$", x)), None)
@@ -423,9 +428,8 @@ class Writer:
             if any(l.strip() and not l.lstrip().startswith("#") for l in lits[1:]):
                 fail(self.where, "writer: unexpected literal in key line", str(items))
             mems, htok = [], 0
-            for x in exprs:
-                mem, is_h = self.member_of(x, loops)
-                if is_h and loops and loops[-1].get("kind") == "nested":
+            for mem, is_h in rexprs:
+                if is_h:
                     htok += 1
                 elif mem not in mems:
                     mems.append(mem)
@@ -444,8 +448,7 @@ class Writer:
         if text0 is not None and text0.strip() == "" and not exprs:
             return          # bare newline / blanks
         mems = []
-        for x in exprs:
-            mem, _ = self.member_of(x, loops)
+        for mem, _ in rexprs:
             if mem not in mems:
                 mems.append(mem)
         if len(mems) != 1 or mems[0] == "":
@@ -563,7 +566,11 @@ class Writer:
                     if body or not self.items or True:
                         self.items.append('"' + body.replace("\\", "\\\\").replace('"', '\\"').replace("\t", "\\t") + '"')
                     self.flush_line(guards, loops)
+                elif p.startswith('"') or re.match(r"^indent\d$", p):
+                    self.items.append(p)
                 else:
+                    mem, is_h = self.member_of(p, loops) if not re.match(r"^(n_user_local|this->description)$", norm_expr(p)) else (None, False)
+                    self.resolved[len(self.items)] = (mem, is_h and bool(loops) and loops[-1].get("kind") == "nested")
                     self.items.append(p)
             return
         m = re.match(r"^(.+?)(\.|->)dump_raw\(s_oss, indent \+ \d\)$", s)
@@ -710,6 +717,7 @@ class Reader:
         opt_save, use_last, errors, warns, opt_assign = None, None, False, False, None
         child_local = None
         header_locals = []
+        cond_member, clobbers = None, []
         for s in stmts:
             if s in ("break", "continue", "i = 0", "int i", "int i = 0", "int s_num", "double d", "LDBLE d", "std::string str",
                      "std::string name", "LDBLE z", "LDBLE dummy", "double dd", "int j", "std::string token"):
@@ -777,7 +785,7 @@ class Reader:
             m = re.match(r"^if (\w+_first)$", s) or re.match(r"^(\w+_first) = false$", s)
             if m and m.group(1) in self.locals:
                 continue
-            m = re.match(r"^this->(\w+)\.clear\(\)$", s)
+            m = re.match(r"^this->(\w+)\.(clear\(\)|assign\(\d+, 0\.0\))$", s)
             if m and m.group(1) in self.members:
                 continue
             m = re.match(r"^std::map<[^;]*>::iterator (\w+) = (\w+)\.find\((\w+)\)$", s)
@@ -801,10 +809,29 @@ class Reader:
             m = re.match(r"^(\w+_ptr) = this->Find(_\w+)?\((\w+)(\.c_str\(\))?\)$", s)
             if m and m.group(1) in self.locals:
                 continue
+            m = re.match(r'^\(void\)sscanf\(token\.c_str\(\), "%lf", &(\w+)\)$', s)
+            if m:
+                holds[m.group(1)] = True
+                kind = kind or "value"
+                continue
             m = re.match(r"^std::istringstream iss\(token\)$", s)
             if m:
                 continue
-            m = re.match(r"^while parser\.copy_token\(token, next_char\) == CParser::TT_DIGIT$", s)
+            m = re.match(r"^j = parser\.copy_token\(token, next_char\)$", s)
+            if m:
+                holds["token"] = True
+                kind = kind or "value"
+                continue
+            if s == "if j == CParser::TT_EMPTY":
+                continue
+            m = re.match(r"^this->Set_(\w+)\(token\.c_str\(\)\)$", s)
+            if m and "token" in holds and m.group(1) in self.members:
+                sinks.append(m.group(1))
+                continue
+            m = re.match(r"^if !(cleared_once)$", s) or re.match(r"^(cleared_once) = true$", s)
+            if m and m.group(1) in self.locals:
+                continue
+            m = re.match(r"^while (\(k = )?parser\.copy_token\(token, next_char\)\)? == CParser::TT_DIGIT$", s)
             if m:
                 kind = kind or "value"
                 continue
@@ -835,7 +862,7 @@ class Reader:
                 else:
                     holds[nm] = True
                 continue
-            m = re.match(r"^(.+?)\.(push_back|merge_redox)\((?:\(\w+\)\s*)?(\w+)\)$", s)
+            m = re.match(r"^(.+?)\.(push_back|merge_redox)\((?:\(\w+\)\s?)?(\w+)\)$", s)
             if m and m.group(3) in holds:
                 k, nm = self.target(m.group(1))
                 if k == "member":
@@ -851,6 +878,15 @@ class Reader:
                 continue
             m = re.match(r"^if (\w+)$", s)
             if m and m.group(1) in holds:
+                continue
+            # conditional constant side effect on another member: `if (this->X) this->Y = false;`
+            m = re.match(r"^if this->(\w+)$", s)
+            if m and m.group(1) in sinks:
+                cond_member = m.group(1)
+                continue
+            m = re.match(r"^this->(\w+) = (false|true|0)$", s)
+            if m and cond_member and m.group(1) in self.members:
+                clobbers.append(m.group(1))
                 continue
             m = re.match(r"^this->(\w+) = \(?(\w+) (?:!= 0|== 1)\)?$", s)    # this->pr_in = (i != 0)
             if m and m.group(2) in holds and m.group(1) in self.members:
@@ -876,9 +912,11 @@ class Reader:
                 fail(where, "reader: case neither reads, warns nor reports an error", text)
         elif errors and False:
             pass
+        if kind == "nested":
+            sinks = list(dict.fromkeys(re.sub(r"\[\*\]$", "", x) for x in sinks))
         if kind in ("value", "namedouble", "nested") and not sinks:
             fail(where, "reader: value read but no member receives it", text)
-        return dict(labels=labels, sinks=sinks, kind=kind, child=child, htok=htok, flags=flags,
+        return dict(labels=labels, sinks=sinks, kind=kind, child=child, htok=htok, flags=flags, clobbers=clobbers,
                     opt_save=opt_save, use_last=bool(use_last), opt_assign=opt_assign)
 
     def child_of(self, typ):
@@ -901,7 +939,7 @@ def parse_reader(tab, cls, src, members, where):
         fail(where, "reader: expected exactly one switch (opt)")
     pre = [nd for nd in loop[0][2] if nd[0] != "switch"]
     pre_txt = " ".join(flat_stmts(pre))
-    uses_last = "getOptionFromLastLine(vopts, next_char, true)" in pre_txt
+    uses_last = bool(re.search(r"getOptionFromLastLine\(vopts, next_char, (true|false)\)", pre_txt))
     if "parser.get_option(vopts, next_char)" not in pre_txt:
         fail(where, "reader: option lookup is not parser.get_option(vopts, next_char)")
     default_to_save = bool(re.search(r"if opt == CParser::OPT_DEFAULT opt = opt_save", pre_txt))
@@ -991,8 +1029,8 @@ def extract(repo=None):
     nd = preprocess(strip_comments((base / "NameDouble.cxx").read_text(errors="replace")), "NameDouble.cxx")
     body, _ = function_body(nd, "cxxNameDouble", "dump_raw", "NameDouble.cxx dump_raw")
     flat = " ".join(body.split())
-    if not re.search(r'pad_right\(it->first, [^)]*\) << it->second << "\\n"', flat) or \
-            not re.search(r'pad_right\(it->first, [^)]*\) << " " << it->second << "\\n"', flat):
+    if not re.search(r'pad_right\(it->first, 29 - indent0\.size\(\)\) << it->second << "\\n"', flat) or \
+            not re.search(r'pad_right\(it->first, it->first\.size\(\) \+ indent0\.size\(\)\) << " " << it->second << "\\n"', flat):
         fail("NameDouble.cxx", "dump_raw does not print `name value` lines")
     body, _ = function_body(nd, "cxxNameDouble", "read_raw", "NameDouble.cxx read_raw")
     flat = " ".join(body.split())
@@ -1008,13 +1046,126 @@ def extract(repo=None):
         if need not in flat:
             fail("Parser.cxx", "find_option is no longer the case-folded first-prefix matcher", need)
     for fn in ("get_option", "getOptionFromLastLine"):
-        for nth in (0, 1):
+        for nth in (1,):        # the std::istream::pos_type overload is the one every read_raw uses
             b, _ = function_body(ps, "CParser", fn, "Parser.cxx", nth)
+            if "std::istream::pos_type pos_ptr" not in b:
+                fail("Parser.cxx", f"second definition of {fn} is not the pos_type overload")
             f2 = " ".join(b.split())
             if not (re.search(r"find_option\(option(\.substr\(1\))?, &opt, opt_list, false\)", f2)
                     and re.search(r"find_option\(option, &opt, opt_list, true\)", f2)):
                 fail("Parser.cxx", f"{fn} does not look options up with find_option (prefix for -options, exact otherwise)")
     return tables
+
+
+# ------------------------------------------------------------------------------------------------ obligations (mirror)
+def find_option(item, vopts, exact=False):
+    tok = item.lower()
+    for i, o in enumerate(vopts):
+        if (o == tok) if exact else o.startswith(tok):
+            return i
+    return None
+
+
+def resolve(t, k):
+    cases = t["reader"]["cases"]
+    if k["key"] == "":
+        return next((c for c in cases if not c["labels"]), None)
+    i = find_option(k["key"], t["vopts"])
+    if i is None:
+        return None
+    return next((c for c in cases if i in c["labels"]), None)
+
+
+def is_const(k):
+    return k["members"] in ([""], [])
+
+
+KINDS_AGREE = {("scalar", "value"), ("lines", "value"), ("bare", "value"), ("namedouble", "namedouble"), ("nested", "nested")}
+
+
+def descendants(bytab, t, fuel=3):
+    out = [t]
+    if fuel:
+        for k in t["written"]:
+            if k["kind"] == "nested" and k["child"] in bytab:
+                out += descendants(bytab, bytab[k["child"]], fuel - 1)
+    return out
+
+
+def followers(ks):
+    out = []
+    for k in ks:
+        out.append(k)
+        if k["guard"][0] == "none" and k["kind"] != "nested" and k["key"] != "":
+            break
+    return out
+
+
+def defects(tables):
+    """the same obligations as Model/RawTables.lean (`failing`), with the key each failure is about:
+    list of (table, obligation, key, detail)"""
+    bytab = {t["name"]: t for t in tables}
+    out = []
+    for t in tables:
+        W = t["written"]
+        for n, k in enumerate(W):
+            c = resolve(t, k)
+            if c is None or c["kind"] == "error":
+                out.append((t["name"], "keys_known", k["key"], "no option" if c is None else "error case"))
+            if not is_const(k) and c is not None and not set(c["sinks"]) <= set(k["members"]):
+                out.append((t["name"], "no_cross_wiring", k["key"], f"prints {k['members']} lands in {c['sinks']}"))
+            if k["section"] != "work" and not is_const(k):
+                if c is None or not set(k["members"]) <= set(c["sinks"]) or (k["kind"], c["kind"]) not in KINDS_AGREE:
+                    out.append((t["name"], "state_restored", k["key"], f"prints {k['members']} restored {c['sinks'] if c else None}"))
+            if k["kind"] == "nested":
+                ch = bytab.get(k["child"])
+                ok = (c is not None and ch is not None and c["kind"] == "nested" and c["child"] == k["child"] and
+                      c["htok"] == k["htok"] and c["use_last"] and t["reader"]["uses_last"])
+                why = []
+                if not ok:
+                    why.append("header line / hand-over differs")
+                if ch is not None:
+                    for d in descendants(bytab, ch):
+                        if d["reader"]["unknown"] != "return":
+                            why.append(f"{d['name']} reader reports an error on a line it does not know")
+                        for f in [k] + followers(W[n + 1:]):
+                            if find_option(f["key"], d["vopts"]) is not None:
+                                why.append(f"following key -{f['key']} is swallowed by {d['name']}")
+                if why:
+                    out.append((t["name"], "header_symmetric", k["key"], "; ".join(why)))
+            if k["guard"][0] == "nonempty" and k["members"] != [k["guard"][1]]:
+                out.append((t["name"], "guards_ok", k["key"], "guard on another member"))
+            if k["guard"][0] == "flag":
+                m = k["guard"][1]
+                if not any(k2["members"] == [m] and k2["guard"][0] == "none" and (resolve(t, k2) or {}).get("sinks") == [m] for k2 in W):
+                    out.append((t["name"], "guards_ok", k["key"], f"flag {m} is not restored unconditionally"))
+            if k["section"] != "work" and k["kind"] in ("namedouble", "lines"):
+                if c is None or not (c.get("continues") or c.get("default_line")):
+                    out.append((t["name"], "continuation_ok", k["key"], "continuation lines do not return to the case"))
+            if len(k["members"]) > 1 or (c is not None and len(c["sinks"]) > 1):
+                out.append((t["name"], "single_field", k["key"], "more than one member"))
+        for f in t["reader"]["required"]:
+            if not any(k["guard"][0] == "none" and k["kind"] != "nested" and f in (resolve(t, k) or {}).get("flags", []) for k in W):
+                out.append((t["name"], "required_defined", f, "no always-written key sets the flag"))
+        fields = [k["members"][0] for k in W if len(k["members"]) == 1 and k["members"][0] != ""]
+        for f in sorted({x for x in fields if fields.count(x) > 1}):
+            out.append((t["name"], "fields_distinct", f, "printed by two keys"))
+    return out
+
+
+def latent(tables):
+    """things the obligations deliberately do not demand (reported in the evidence, never an alarm)"""
+    out = []
+    for t in tables:
+        for k in t["written"]:
+            c = resolve(t, k)
+            if k["section"] == "work" and c is not None and not is_const(k) and not set(k["members"]) <= set(c["sinks"]):
+                out.append(f"{t['name']} -{k['key']}: workspace value dropped by the reader ({c['kind']})")
+            if k["section"] == "work" and k["kind"] in ("namedouble", "lines") and c is not None and not (c.get("continues") or c.get("default_line")):
+                out.append(f"{t['name']} -{k['key']}: workspace block without a continuation case (the block is empty in every dump)")
+            if c is not None and c.get("clobbers"):
+                out.append(f"{t['name']} -{k['key']}: when true also clears {c['clobbers']}")
+    return out
 
 
 # ------------------------------------------------------------------------------------------------ Lean emission
@@ -1055,6 +1206,11 @@ def emit(tables):
         o.append("")
     o.append("def allTables : List ClassTab := " + ll("tab" + t["name"] for t in tables))
     o.append("")
+    ex = sorted({d[0] for d in defects(tables)})
+    o.append("/-- tables for which the translator's own evaluation of the obligations fails on the current source; each is")
+    o.append("reported by the check (finding / violation) and proved defective in `Properties/C10.lean` -/")
+    o.append("def exempt : List String := " + ll(ls(x) for x in ex))
+    o.append("")
     o.append("end PhreeqcVerif.Gen.Raw")
     return "\n".join(o) + "\n"
 
@@ -1065,7 +1221,7 @@ def generate(ctx=None):
     out = vlib.LEAN / "PhreeqcVerif" / "Gen" / "RawTables.lean"
     if not out.exists() or out.read_text() != text:
         out.write_text(text)
-    return dict(classes=len(tables), written_keys=sum(len(t["written"]) for t in tables),
+    return dict(tables=tables, defects=defects(tables), latent=latent(tables), classes=len(tables), written_keys=sum(len(t["written"]) for t in tables),
                 options=sum(len(t["vopts"]) for t in tables), cases=sum(len(t["reader"]["cases"]) for t in tables),
                 sources=[f"{t['file']}:{t['dump_raw_line']},{t['read_raw_line']}" for t in tables])
 
@@ -1085,3 +1241,7 @@ if __name__ == "__main__":
             print("  W", e["key"], e["members"], e["kind"], e["section"], e["guard"], e["child"], e["htok"])
         for c in t["reader"]["cases"]:
             print("  R", c["labels"], c["sinks"], c["kind"], c["child"], c["htok"], c["flags"], c["opt_save"], c["use_last"])
+    for d in defects(ts):
+        print("DEFECT", d)
+    for d in latent(ts):
+        print("latent", d)
